@@ -10,6 +10,9 @@ A generated circuit is a plain JSON-serialisable dict ("cdict"):
 so that every case can be replayed without the RNG.  ``build`` turns it into a
 circuitgraph.Circuit either on a raw networkx graph or through Circuit.add.
 """
+import json
+import zlib
+
 import networkx as nx
 
 GATES1 = ["buf", "not"]
@@ -23,6 +26,8 @@ ALL_GATES = GATES1 + GATESN
 
 
 P_LARGE = 0.012
+COUNTS = {}  # what the generator actually produced (merged into the worker counters)
+VARIANTS = True  # representation variants chosen by build(); see representation()
 
 
 def new_cdict(name="top"):
@@ -75,41 +80,91 @@ def cd_canon(cd):
     }
 
 
-def build(cg, cd, via="graph"):
+class NetName(str):
+    """A str subclass as node name (what a parser token, numpy.str_ or an annotated net name would be)."""
+
+    __slots__ = ()
+
+
+def representation(cd):
+    """Deterministic (hash-order independent) choice of a legal representation variant for this cdict, so that a
+    replay of the serialised case rebuilds exactly the same objects."""
+    h = zlib.crc32(json.dumps(cd_canon(cd), sort_keys=True).encode())
+    r = h % 1000
+    if r < 40:
+        return "intflags"  # `output` attribute 1 / 0 / None instead of True / False
+    if r < 70:
+        return "strsub"  # node names are instances of a str subclass
+    if r < 100:
+        return "attrs"  # extra node and edge attributes (weight, delay, src)
+    if r < 130:
+        return "bbobjects"  # one BlackBox object per instance, pins given as tuples / generators / sets
+    return None
+
+
+def build(cg, cd, via="graph", variant="auto"):
     """Construct the library Circuit from a cdict."""
+    if variant == "auto":
+        variant = representation(cd) if VARIANTS else None
+    if variant:
+        COUNTS[f"repr:{variant}"] = COUNTS.get(f"repr:{variant}", 0) + 1
+    nm = NetName if variant == "strsub" else str
     bbs = {}
     bbtypes = {}
-    for inst, b in cd["bbs"].items():
+    for j, (inst, b) in enumerate(cd["bbs"].items()):
         key = (b["name"], tuple(b["inputs"]), tuple(b["outputs"]))
+        if variant == "bbobjects":
+            ins, outs = list(b["inputs"]), list(b["outputs"])
+            if j % 3 == 0:
+                ins, outs = (x for x in ins), iter(outs)
+            elif j % 3 == 1:
+                ins, outs = tuple(ins), set(outs)
+            bbs[inst] = cg.BlackBox(b["name"], ins, outs)
+            continue
         if key not in bbtypes:
             bbtypes[key] = cg.BlackBox(b["name"], list(b["inputs"]), list(b["outputs"]))
         bbs[inst] = bbtypes[key]
+
+    def flag(o, j):
+        if variant == "intflags":
+            return 1 if o else (0, None)[j % 2]
+        return bool(o)
+
     if via in ("graph", "sparse"):
         g = nx.DiGraph()
-        for n, t, o in cd["nodes"]:
+        for j, (n, t, o) in enumerate(cd["nodes"]):
             if via == "sparse" and not o and (t == "input" or len(n) % 2 == 0):
                 # like the fast parser: nodes that are not outputs may lack the `output` attribute
-                g.add_node(n, type=t)
+                g.add_node(nm(n), type=t)
             else:
-                g.add_node(n, type=t, output=bool(o))
-        for u, v in cd["edges"]:
-            g.add_edge(u, v)
+                g.add_node(nm(n), type=t, output=flag(o, j))
+            if variant == "attrs":
+                g.nodes[n]["src"] = f"line {j}"
+                g.nodes[n]["weight"] = 3 + j
+        for j, (u, v) in enumerate(cd["edges"]):
+            if variant == "attrs":
+                g.add_edge(nm(u), nm(v), weight=0.25 + (j % 5), delay=j)
+            else:
+                g.add_edge(nm(u), nm(v))
         c = cg.Circuit(name=cd["name"], graph=g if len(g) else None, blackboxes=bbs or None)
         return c
     # via the construction API
     c = cg.Circuit(name=cd["name"])
     pins = {f"{inst}.{p}" for inst, b in cd["bbs"].items() for p in b["inputs"] + b["outputs"]}
-    for n, t, o in cd["nodes"]:
+    for j, (n, t, o) in enumerate(cd["nodes"]):
         if n in pins:
             continue
-        c.add(n, t, output=bool(o))
+        c.add(nm(n), t, output=flag(o, j))
     for inst, bb in bbs.items():
-        c.add_blackbox(bb, inst)
+        c.add_blackbox(bb, nm(inst))
     for n, t, o in cd["nodes"]:
         if n in pins and o:
-            c.set_output(n)
-    for u, v in cd["edges"]:
-        c.connect(u, v)
+            c.set_output(n, flag(True, 0)) if variant == "intflags" else c.set_output(n)
+    for j, (u, v) in enumerate(cd["edges"]):
+        c.connect(nm(u), nm(v))
+        if variant == "attrs":
+            c.graph.edges[u, v]["weight"] = 0.25 + (j % 5)
+            c.graph.edges[u, v]["delay"] = j
     return c
 
 
@@ -165,13 +220,20 @@ def rand_circuit(
     large = None
     if force is None and rng.random() < (P_LARGE if p_large is None else p_large):
         # sizes beyond what the ordinary classes reach: deep chains, one very wide gate, many nodes, long names
-        large = rng.choice(["deep", "fat", "many", "longnames"])
+        large = rng.choice(["deep", "fat", "many", "longnames", "hub", "hub", "manyout"])
+        COUNTS[f"size:{large}"] = COUNTS.get(f"size:{large}", 0) + 1
         if large == "deep":
             shape, n_gates = "chain", rng.randint(22, 40)
         elif large == "fat":
             n_gates = rng.randint(20, 45)
         elif large == "many":
             n_gates = rng.randint(66, 90)
+        elif large == "hub":
+            # one net with 17..80 loads
+            n_gates = rng.choice([rng.randint(18, 30), rng.randint(30, 64), rng.randint(65, 82)])
+        elif large == "manyout":
+            n_gates = rng.randint(20, 40)
+            n_outputs = rng.randint(17, min(36, n_gates))
     cd = new_cdict(name)
     shape = shape or rng.choice(["random", "random", "random", "chain", "tree", "diamond", "wide", "multi"])
     avail = []
@@ -233,6 +295,8 @@ def rand_circuit(
         fi = rng.sample(pool, ar)
         if shape == "chain" and gates and gates[-1] not in fi:
             fi[0] = gates[-1]
+        if large == "hub" and avail[0] not in fi and gi < n_gates - 1:
+            fi[0] = avail[0]
         cd["nodes"].append([n, t, False])
         for f in fi:
             cd["edges"].append([f, n])
@@ -279,7 +343,7 @@ def rand_circuit(
                 outs.add(n)
     cd["nodes"] = [[n, t, n in outs] for n, t, _ in cd["nodes"]]
     if large == "longnames":
-        pad = "w" + "".join(rng.choice("abcdefghij0123456789") for _ in range(rng.randint(40, 70)))
+        pad = "w" + "".join(rng.choice("abcdefghij0123456789") for _ in range(rng.randint(40, 100)))
         cd = cd_rename(cd, {n: n + pad + str(j) for j, (n, t, _) in enumerate(cd["nodes"]) if rng.random() < 0.7})
     return cd
 
